@@ -73,9 +73,9 @@ Shallow(T, x, on, back) ==
 (* walk(all, on, self_=, recurse=, back=) started on x.  F is the set of     *)
 (* nodes the `all` filter lets through: filters and self_ only *select*      *)
 (* yields, they never change the order or the set of nodes visited.          *)
+WalkSel(full, x, self_, F) == SelectSeq(full, LAMBDA e : e.n \in F /\ (self_ \/ e.n # x))
 WalkSeq(T, x, on, back, recurse, self_, F) ==
-  LET full == IF recurse THEN Deep(T, x, on, back) ELSE Shallow(T, x, on, back)
-  IN SelectSeq(full, LAMBDA e : e.n \in F /\ (self_ \/ e.n # x))
+  WalkSel(IF recurse THEN Deep(T, x, on, back) ELSE Shallow(T, x, on, back), x, self_, F)
 
 NodesOf(evs) == [i \in 1..Len(evs) |-> evs[i].n]
 WalkNodes(T, x, on, back, recurse, self_, F) == NodesOf(WalkSeq(T, x, on, back, recurse, self_, F))
